@@ -458,40 +458,19 @@ unsafe fn do_spawn<F: PreExec>(
     let child_pid = rusl::process::fork()?;
     // From this point we're two processes
     if child_pid == 0 {
-        // Executing as child process
+        // Executing as child process.
+        // This branch must never return: a child that returns becomes a second copy of the caller.
+        // Every failure up to and including exec is reported through the sync pipe, then the child exits.
         drop(read_pipe);
-        if let Some(fd) = theirs.stdin.fd() {
-            rusl::unistd::dup2(fd, STDIN)?;
-        }
-        if let Some(fd) = theirs.stdout.fd() {
-            rusl::unistd::dup2(fd, STDOUT)?;
-        }
-        if let Some(fd) = theirs.stderr.fd() {
-            rusl::unistd::dup2(fd, STDERR)?;
-        }
-        if let Some(cwd) = cwd {
-            rusl::unistd::chdir(cwd)?;
-        }
-        if let Some(uid) = uid {
-            rusl::unistd::setuid(uid)?;
-        }
-        if let Some(gid) = gid {
-            rusl::unistd::setgid(gid)?;
-        }
-        if let Some(pgroup) = pgroup {
-            rusl::unistd::setpgid(0, pgroup)?;
-        }
-        for closure in closures {
-            closure.run()?;
-        }
-        let Err(e) = rusl::process::execve(bin, argv, envp) else {
-            // execve only returns on error.
-            unreachable_unchecked();
+        let e = match setup_child(&theirs, cwd, uid, gid, pgroup) {
+            Ok(()) => do_exec(bin, argv, envp, closures),
+            Err(e) => e,
         };
-        let code: [u8; 4] = if let Some(code) = e.code {
+        // `0` tells the parent that the failing step had no OS error code
+        let code: [u8; 4] = if let Error::Os { code, .. } = e {
             code.raw().to_be_bytes()
         } else {
-            rusl::process::exit(1)
+            0i32.to_be_bytes()
         };
         let bytes = [
             code[0],
@@ -529,9 +508,12 @@ unsafe fn do_spawn<F: PreExec>(
                     return Err(Error::no_code("Validation on the CLOEXEC pipe failed"));
                 }
 
-                let errno = Errno::new(i32::from_be_bytes(errno.try_into().unwrap_unchecked()));
+                let errno = i32::from_be_bytes(errno.try_into().unwrap_unchecked());
                 process.wait()?;
-                return Err(Error::os("Failed to wait for process", errno));
+                if errno == 0 {
+                    return Err(Error::no_code("Child process failed before exec"));
+                }
+                return Err(Error::os("Failed to wait for process", Errno::new(errno)));
             }
             Err(ref e) if matches!(e.code, Some(Errno::EINTR)) => {}
             Err(_) => {
@@ -545,6 +527,39 @@ unsafe fn do_spawn<F: PreExec>(
             }
         }
     }
+}
+
+/// Runs in the forked child before the pre-exec closures: wire up stdio, working directory,
+/// ids and process group. The caller must not return into user code on `Err`.
+fn setup_child(
+    theirs: &ChildPipes,
+    cwd: Option<&UnixStr>,
+    uid: Option<UidT>,
+    gid: Option<GidT>,
+    pgroup: Option<PidT>,
+) -> Result<()> {
+    if let Some(fd) = theirs.stdin.fd() {
+        rusl::unistd::dup2(fd, STDIN)?;
+    }
+    if let Some(fd) = theirs.stdout.fd() {
+        rusl::unistd::dup2(fd, STDOUT)?;
+    }
+    if let Some(fd) = theirs.stderr.fd() {
+        rusl::unistd::dup2(fd, STDERR)?;
+    }
+    if let Some(cwd) = cwd {
+        rusl::unistd::chdir(cwd)?;
+    }
+    if let Some(uid) = uid {
+        rusl::unistd::setuid(uid)?;
+    }
+    if let Some(gid) = gid {
+        rusl::unistd::setgid(gid)?;
+    }
+    if let Some(pgroup) = pgroup {
+        rusl::unistd::setpgid(0, pgroup)?;
+    }
+    Ok(())
 }
 
 /// Spawns a process with the provided arguments. On no arguments, the binary will be set as the first
